@@ -198,7 +198,10 @@ func newC16World(t *testing.T) *c16World {
 const c16Client = "09-localhost"
 
 // our channel -> the counterparty's channel
-var c16Counterparty = map[string]string{"channel-0": "channel-0", "channel-1": "channel-3"}
+// channel-0 is symmetric; channel-1 and channel-2 are asymmetric and their counterparty's id is the id of ANOTHER local
+// channel (a hook that derived the voucher denomination from the packet's source end would hit the sibling voucher of
+// that other channel); channel-3's counterparty id names no local channel.
+var c16Counterparty = map[string]string{"channel-0": "channel-0", "channel-1": "channel-0", "channel-2": "channel-1", "channel-3": "channel-7"}
 
 // deliver runs the real ibc-go core handler for MsgRecvPacket on ctx; returns the acknowledgement hash stored for the
 // packet (nil = none written).
@@ -389,6 +392,17 @@ func (w *c16World) recv(r *Rec, p c16Pkt) (string, string) {
 	w.hist = append(w.hist, line)
 	// -- the routed stack ---------------------------------------------------------------------------
 	pairBefore, hadPair := w.pairOf(w.ctx, hookDenom)
+	allPairs := w.app.AggregateKeeper.GetAllTokenPairs(w.ctx)
+	// distribution only: the voucher the same base denomination has over the LOCAL channel whose id equals the
+	// counterparty's channel id ("sibling"), registered, enabled and held by the receiver in sufficient amount
+	siblingFunded := false
+	if sib, _ := aggregatetypes.IBCDenom(pkt.GetDestPort(), pkt.GetSourceChannel(), data.Denom); dec && sib != hookDenom && rcv != nil && amt != nil && amt.Sign() > 0 {
+		if sp, ok := w.pairOf(w.ctx, sib); ok && sp.Enabled {
+			if have := b0[hx(rcv)+" "+hxs(sib)]; have != nil && have.Cmp(amt) >= 0 {
+				siblingFunded = true
+			}
+		}
+	}
 	ctxM, _ := w.ctx.CacheContext()
 	ctxM = ctxM.WithEventManager(sdk.NewEventManager())
 	var mwAck ibcexported.Acknowledgement
@@ -425,11 +439,6 @@ func (w *c16World) recv(r *Rec, p c16Pkt) (string, string) {
 	bM := c16Balances(w, ctxM)
 	var recvEvm common.Address
 	recvEvm = common.BytesToAddress(rcv.Bytes())
-	tokI, tokM := "-", "-"
-	if hadPair {
-		tokI = w.tokenBalance(ctxI, pairBefore.GetERC20Contract(), recvEvm)
-		tokM = w.tokenBalance(ctxM, pairBefore.GetERC20Contract(), recvEvm)
-	}
 	seqI, _ := w.app.AccountKeeper.GetSequence(ctxI, w.modAddr)
 	seqM, _ := w.app.AccountKeeper.GetSequence(ctxM, w.modAddr)
 	innerOK := innerAck.Success()
@@ -443,45 +452,86 @@ func (w *c16World) recv(r *Rec, p c16Pkt) (string, string) {
 		w.fail(r, "C16:ack-not-inner:different", "IBCMiddleware.OnRecvPacket returned an acknowledgement different from the wrapped module's",
 			c16AckStr(mwAck), c16AckStr(innerAck))
 	}
-	// (b) atomic conversion: the stack's state = the wrapped module's state, or that plus one complete conversion
+	// (b) atomic conversion OF THE RECEIVED VOUCHERS: relative to the wrapped module's run alone, either nothing changed
+	// (no balance of any account / denomination, no token balance of the receiver in any registered pair's contract, no
+	// module nonce), or exactly `amt` of the denomination THE TRANSFER MODULE CREDITED moved receiver -> module account
+	// (burned for an externally owned pair) and the receiver's token balance in that denomination's contract grew by amt.
+	// Nothing here uses the denomination the hook is supposed to compute.
+	credited, nCredited := "", 0
+	if innerOK && rcv != nil {
+		for _, e := range deltas {
+			f := strings.Fields(e)
+			if f[0] == hx(rcv) && !strings.HasPrefix(f[2], "-") {
+				credited = string(unhx(f[1]))
+				nCredited++
+			}
+		}
+	}
+	var tokChanged []string // contracts (of pairs registered before the packet) where the receiver's token balance differs
+	tokDelta := map[string]*big.Int{}
+	for _, tp := range allPairs {
+		x, y := w.tokenBalance(ctxI, tp.GetERC20Contract(), recvEvm), w.tokenBalance(ctxM, tp.GetERC20Contract(), recvEvm)
+		if x != y {
+			tokChanged = append(tokChanged, tp.ERC20Address+":"+x+"->"+y)
+			xi, ok1 := new(big.Int).SetString(x, 10)
+			yi, ok2 := new(big.Int).SetString(y, 10)
+			if ok1 && ok2 {
+				tokDelta[tp.ERC20Address] = yi.Sub(yi, xi)
+			}
+		}
+	}
 	diff := c16Diff(bI, bM)
 	converted := false
 	switch {
 	case len(diff) == 0:
-		if tokI != tokM || seqI != seqM {
+		if len(tokChanged) != 0 || seqI != seqM {
 			w.fail(r, "C16:partial-conversion:evm-changed", "bank balances are those left by the transfer module but the EVM side changed",
-				fmt.Sprintf("token %s -> %s, module nonce %d -> %d", tokI, tokM, seqI, seqM), "no change")
+				fmt.Sprintf("token balances %v, module nonce %d -> %d", tokChanged, seqI, seqM), "no change")
 		}
 	case !innerOK:
 		w.fail(r, "C16:effects-after-error-ack", "the middleware changed balances although the wrapped module returned an error acknowledgement",
 			strings.Join(diff, "; "), "no change")
 	default:
+		// is the bank difference one complete conversion of SOME denomination D by SOME amount A?
+		var convD string
+		var convA *big.Int
+		burned := false
+		if rcv != nil && (len(diff) == 1 || len(diff) == 2) {
+			var rcvE, modE []string
+			for _, e := range diff {
+				f := strings.Fields(e)
+				if f[0] == hx(rcv) {
+					rcvE = f
+				} else if f[0] == hx(w.modAddr) {
+					modE = f
+				}
+			}
+			if rcvE != nil && strings.HasPrefix(rcvE[2], "-") && (len(diff) == 1 || (modE != nil && modE[1] == rcvE[1] && "-"+modE[2] == rcvE[2])) {
+				convD = string(unhx(rcvE[1]))
+				convA, _ = new(big.Int).SetString(rcvE[2][1:], 10)
+				burned = len(diff) == 1
+			}
+		}
 		okShape := false
-		if amt != nil && amt.Sign() > 0 && rcv != nil && hadPair {
-			neg := new(big.Int).Neg(amt).String()
-			want1 := []string{hx(rcv) + " " + hxs(hookDenom) + " " + neg, hx(w.modAddr) + " " + hxs(hookDenom) + " " + amt.String()}
-			sort.Strings(want1)
-			want2 := []string{hx(rcv) + " " + hxs(hookDenom) + " " + neg} // externally owned pair: coins burned
-			if strings.Join(diff, ";") == strings.Join(want1, ";") && pairBefore.IsNativeCoin() {
-				okShape = true
-			}
-			if strings.Join(diff, ";") == strings.Join(want2, ";") && pairBefore.IsNativeERC20() {
-				okShape = true
-			}
-			if okShape {
-				ti, ok1 := new(big.Int).SetString(tokI, 10)
-				tm, ok2 := new(big.Int).SetString(tokM, 10)
-				if !ok1 || !ok2 || new(big.Int).Add(ti, amt).Cmp(tm) != 0 {
-					okShape = false
+		if convA != nil {
+			if cp, ok := w.pairOf(w.ctx, convD); ok && ((burned && cp.IsNativeERC20()) || (!burned && cp.IsNativeCoin())) {
+				if d := tokDelta[cp.ERC20Address]; len(tokChanged) == 1 && d != nil && d.Cmp(convA) == 0 {
+					okShape = true // one complete conversion of convA of convD
 				}
 			}
 		}
-		if !okShape {
-			w.fail(r, "C16:partial-conversion", "after OnRecvPacket the balances are neither those left by the transfer module nor those plus one complete conversion",
-				fmt.Sprintf("bank diff [%s] token %s -> %s", strings.Join(diff, "; "), tokI, tokM),
-				"receiver -amt vouchers, module +amt (escrow), receiver +amt tokens; or nothing")
-		} else {
+		switch {
+		case okShape && nCredited == 1 && convD == credited && amt != nil && convA.Cmp(amt) == 0:
 			converted = true
+		case okShape && convD != credited:
+			w.fail(r, "C16:converted-other-denomination", "the middleware converted vouchers of a denomination the transfer module did not credit for this packet: "+
+				"the received vouchers stay in the account while other holdings of the receiver were escrowed and turned into tokens",
+				fmt.Sprintf("converted %s of %s (bank diff [%s], token %v); the transfer module credited %q", convA, convD, strings.Join(diff, "; "), tokChanged, credited),
+				"convert exactly the received amount of the credited denomination, or nothing")
+		default:
+			w.fail(r, "C16:partial-conversion", "after OnRecvPacket the balances are neither those left by the transfer module nor those plus one complete conversion of the received vouchers",
+				fmt.Sprintf("bank diff [%s] token balances %v; credited %q amount %s", strings.Join(diff, "; "), tokChanged, credited, amtS),
+				"receiver -amt of the credited vouchers, module +amt (escrow), receiver +amt tokens; or nothing")
 		}
 	}
 	// (c) the guards assumed about the wrapped module (ICS-20 ValidateBasic / OnRecvPacket)
@@ -557,6 +607,20 @@ func (w *c16World) recv(r *Rec, p c16Pkt) (string, string) {
 	}
 	if !dec {
 		r.Count("recv.malformed-data")
+	}
+	if innerOK && p.sc != p.dc {
+		r.Count("recv.asymmetric-channels")
+		if converted {
+			r.Count("recv.asymmetric-channels.converted")
+		}
+	}
+	if innerOK && siblingFunded {
+		r.Count("recv.sibling-denom-funded")
+		if !hadPair {
+			r.Count("recv.sibling-denom-funded.dest-unregistered")
+		} else if converted {
+			r.Count("recv.sibling-denom-funded.dest-converted")
+		}
 	}
 	if transfertypes.ReceiverChainIsSource(p.sp, p.sc, data.Denom) && dec {
 		r.Count("recv.returning")
@@ -818,7 +882,7 @@ func TestC16(t *testing.T) {
 	rng := r.Rng
 	pick := func(xs []string) string { return xs[rng.Intn(len(xs))] }
 	bases := []string{"uatom", "uosmo", "transfer/channel-7/uusd"}
-	dstChans := []string{"channel-0", "channel-0", "channel-0", "channel-1"}
+	dstChans := []string{"channel-0", "channel-0", "channel-0", "channel-1", "channel-1", "channel-1", "channel-2", "channel-2", "channel-3"}
 	hook := func(dc, base string) string {
 		d, _ := aggregatetypes.IBCDenom("transfer", dc, base)
 		return d
@@ -843,18 +907,24 @@ func TestC16(t *testing.T) {
 		// registry set-up: most histories register the voucher denominations that will arrive
 		type regd struct{ dc, base, denom string }
 		registered := []regd{}
-		reg := func(dc, base string) {
+		regAs := func(dc, base, kind, owner string) {
 			d := hook(dc, base)
-			kind := pick(kinds)
-			if rng.Intn(40) == 0 {
-				kind = "balrevert"
+			for _, g := range registered {
+				if g.denom == d {
+					return
+				}
 			}
-			owner := "m"
-			switch x := rng.Intn(12); {
-			case x == 0:
-				owner = "u"
-			case x <= 2 || (x <= 4 && strings.HasPrefix(kind, "tiny")):
-				owner = "x"
+			if kind == "" {
+				kind = pick(kinds)
+				if rng.Intn(40) == 0 {
+					kind = "balrevert"
+				}
+				switch x := rng.Intn(12); {
+				case x == 0:
+					owner = "u"
+				case x <= 2 || (x <= 4 && strings.HasPrefix(kind, "tiny")):
+					owner = "x"
+				}
 			}
 			if kind == "std" {
 				h = append(h, fmt.Sprintf("fund %s %s 1", hx(w.modAddr), hxs(d)))
@@ -862,24 +932,58 @@ func TestC16(t *testing.T) {
 			h = append(h, fmt.Sprintf("register %s %s %s", hxs(d), kind, owner))
 			registered = append(registered, regd{dc, base, d})
 		}
+		reg := func(dc, base string) { regAs(dc, base, "", "m") }
+		// sibling-denomination constellation: an asymmetric channel dc whose counterparty id sc is also the id of a local
+		// channel; the voucher of the same base denomination over THAT local channel is registered with a converting
+		// pair and the receivers hold plenty of it. The pair for the voucher actually received over dc is absent /
+		// arbitrary / converting.
+		var focus *regd
+		if rng.Intn(3) == 0 {
+			dc := pick([]string{"channel-1", "channel-1", "channel-2"})
+			sc, base := cp(dc), pick(bases)
+			kind, owner := "std", "m"
+			if rng.Intn(3) == 0 {
+				kind = "tiny1"
+				if rng.Intn(2) == 0 {
+					owner = "x"
+				}
+			}
+			regAs(sc, base, kind, owner)
+			switch rng.Intn(4) {
+			case 0, 1: // pair for the sibling voucher only
+			case 2:
+				reg(dc, base)
+			default:
+				regAs(dc, base, pick([]string{"std", "tiny1"}), "m")
+			}
+			for _, a := range goodRecv {
+				if rng.Intn(4) > 0 {
+					ra, _ := sdk.AccAddressFromBech32(a)
+					h = append(h, fmt.Sprintf("fund %s %s 200000000000000000000000000000000", hx(ra), hxs(hook(sc, base))))
+				}
+			}
+			focus = &regd{dc, base, hook(dc, base)}
+		}
 		if rng.Intn(10) > 0 {
 			n := 1 + rng.Intn(3)
 			for j := 0; j < n; j++ {
 				reg("channel-0", bases[rng.Intn(len(bases))])
 			}
 		}
-		if rng.Intn(5) == 0 {
-			reg("channel-1", pick(bases))
+		if rng.Intn(3) == 0 { // a pair for the voucher of ONE asymmetric channel only
+			reg(pick([]string{"channel-1", "channel-1", "channel-2", "channel-3"}), pick(bases))
 		}
-		if rng.Intn(10) == 0 { // contrived: the hook's denom of a returning packet is registered
-			reg("channel-0", "transfer/channel-0/atele")
-		}
+		// (the hook's denomination of a RETURNING packet - hash of the doubly prefixed trace - is never minted by the
+		// transfer module over that channel, so it cannot have supply / be registered: not generated)
 		if rng.Intn(2) == 0 {
 			h = append(h, fmt.Sprintf("fund %s %s %d", hx(transfertypes.GetEscrowAddress("transfer", "channel-0")), hxs("atele"), 1000000+rng.Intn(100)))
 		}
+		if rng.Intn(2) == 0 {
+			h = append(h, fmt.Sprintf("fund %s %s %d", hx(transfertypes.GetEscrowAddress("transfer", pick([]string{"channel-1", "channel-1", "channel-2"}))), hxs("atele"), 1000000+rng.Intn(100)))
+		}
 		if rng.Intn(4) == 0 {
 			back, _ := aggregatetypes.IBCDenom("transfer", "channel-9", "ufoo")
-			h = append(h, fmt.Sprintf("fund %s %s %d", hx(transfertypes.GetEscrowAddress("transfer", "channel-0")), hxs(back), 1000000+rng.Intn(100)))
+			h = append(h, fmt.Sprintf("fund %s %s %d", hx(transfertypes.GetEscrowAddress("transfer", pick([]string{"channel-0", "channel-1"}))), hxs(back), 1000000+rng.Intn(100)))
 		}
 		steps := 4 + rng.Intn(12)
 		moduleOff := false
@@ -930,7 +1034,9 @@ func TestC16(t *testing.T) {
 			default:
 				p := c16Pkt{seq: seq, sp: "transfer", dp: "transfer", dc: pick(dstChans)}
 				denom := pick(bases)
-				if len(registered) > 0 && rng.Intn(4) > 0 { // mostly a denomination with a registered pair
+				if focus != nil && rng.Intn(2) == 0 { // the asymmetric channel of the sibling constellation
+					p.dc, denom = focus.dc, focus.base
+				} else if len(registered) > 0 && rng.Intn(4) > 0 { // mostly a denomination with a registered pair
 					g := registered[rng.Intn(len(registered))]
 					p.dc, denom = g.dc, g.base
 				}
